@@ -125,9 +125,9 @@ def classes(case):
 
 
 @st.composite
-def _tree_cases(draw):
+def _tree_cases(draw, large=False):
     deep = draw(st.integers(0, 30)) == 0
-    j = draw(trees.any_trees(max_nodes=9, depth=draw(st.integers(20, 120)) if deep else None))
+    j = draw(trees.any_trees(max_nodes=50 if large else 9, depth=draw(st.integers(20, 120)) if deep else None, max_branches=16 if large else 4))
     meta = draw(trees.metadata()) if draw(st.integers(0, 2)) == 0 else {}
     return {'k': 'tree', 'tree': j, 'meta': meta}
 
@@ -153,6 +153,7 @@ def stages(tier):
         Fuzz('coverage-guided-bytes', 0, 2000000, decode=lambda data: {'k': 'text', 's': data.decode('utf-8', 'ignore'), 'multi': True},
              seeds=corpus.test_strings(), dictionary=corpus.DICTIONARY, max_len=160),
         Hyp('assembled-trees', _tree_cases, 4000, 150000),
+        Hyp('assembled-trees-large', lambda: _tree_cases(large=True), 300, 15000),
         Hyp('spaced-texts', _text_cases, 4000, 150000),
         Enum('short-strings',
              lambda tier: strings.prefix_chunks(ALPHA, L, 2),
